@@ -111,7 +111,7 @@ def resample_to_approx_dt(asig, target_dt=0.01, even=True):
         new_npts = int(asig.npts / np.floor(1 / factor))
     else:
         new_npts = int(factor * asig.npts)
-    if even:
-        new_npts = 2 * int(new_npts / 2)
     acc_interp = resample(asig.values, new_npts)
+    if even:  # trim after resampling: resampling to the trimmed count would stretch the record onto a different time grid
+        acc_interp = acc_interp[:2 * int(new_npts / 2)]
     return eqsig.AccSignal(acc_interp, asig.dt / factor)
